@@ -691,6 +691,21 @@ func (g *G) DefPure() Def {
 			lines = append(lines, "s + "+PadName(w/2))
 		}
 		src = name + " = (" + strings.Join(ps, ", ") + ") -> " + block(lines)
+	case t == 6 && !g.NoClosures: // returns a closure that a generator yielded: its captured frame lives in an iterator context
+		feats = append(feats, "def.returns_yielded_closure")
+		gm := "gy" + letters(g.nGn)
+		g.nGn++
+		c := g.lit()
+		g.Pre = append(g.Pre, gm+" = (b) -> {\nk = b * 3 + "+c+"\nyield (x) -> x * 2 + k\nyield (x) -> x\n}")
+		arg := g.lit()
+		if ar > 0 {
+			arg = ps[0]
+		}
+		src = name + " = (" + strings.Join(ps, ", ") + ") -> for f <- " + gm + "(" + arg + ") {\nreturn f\n}"
+		d := Def{Name: name, Src: src, Kind: Maker, Arity: ar, Feat: feats}
+		g.Defs = append(g.Defs, d)
+		g.feat("def.returns_yielded_closure")
+		return d
 	case t == 4 && !g.NoClosures: // returns a closure; callers bind and call it
 		feats = append(feats, "def.returns_closure")
 		k := s.fresh()
